@@ -72,6 +72,12 @@ LambdaLastOK(rt) == \A id \in LambdaIds(rt) :
          IF hdr.scenario.op.delta \in {"ok", "exit3"} THEN m.exit /\ m.code = WantCode ELSE (m.exit \/ m.stream = "error")
 LambdaCleaned(s) == NewWls(s) = {} /\ NewContainers(s) = {}
 
+\* beyond the listed properties: a control call never touches records or usage; a successful stop leaves the container
+\* stopped, a successful start / restart leaves it running (reported as REF: diagnostic, no verdict)
+ControlOK(s) ==
+    /\ {WlCore(x.w) : x \in AllWls(s)} = {WlCore(x.w) : x \in AllWls(pre)}
+    /\ \A i \in OkMsgs : msgs[i].id \in WlIds(s) /\ FindWl(s, msgs[i].id).w.running = (hdr.scenario.op.delta # "stop")
+
 \* C13 after the deployment returned: no marker of the application, counts = recorded
 \* (markers that were already there before the call belong to an earlier deployment of a history)
 NoMarkers(s) == \A i \in 1..Len(s.proc) : s.proc[i].app = hdr.scenario.op.app => \E j \in 1..Len(pre.proc) : pre.proc[j].ident = s.proc[i].ident
@@ -138,6 +144,7 @@ TraceNext ==
                             THEN Report(NoMarkers(e), "C13", l, "marker-left-after-deployment/" \o Where) ELSE TRUE)
                        /\ (IF OpFailed(retv) THEN Report(CoreDiff(pre, e) = "none", "C11", l, "failed-operation-changed-" \o CoreDiff(pre, e) \o "/" \o Where) ELSE TRUE)
                        /\ Report(FailedPartsUntouched(e, retv), "C11", l, "failed-part-changed-its-workload/" \o Where)
+                       /\ (IF OpKind = "control" /\ retv.class = "ok" THEN Report(ControlOK(e), "REF", l, "control-changed-records-or-left-wrong-run-state/" \o hdr.scenario.op.delta \o "/" \o Where) ELSE TRUE)
                        /\ (IF OpKind = "lambda" /\ retv.class = "ok"
                            THEN /\ Report(LambdaCleaned(e), "C30", l, "run-and-wait-workload-left-behind/" \o hdr.scenario.op.delta)
                                 /\ Report(LambdaLastOK(retv), "C30", l, "exit-code-not-last-message/" \o hdr.scenario.op.delta)
